@@ -15,7 +15,10 @@ MANIFEST = dict(
          "drivers on the real Routers, HTTPReverseProxy, HTTPSMuxer, HTTPConnectTCPMuxer and ServeHTTP with labelled backends.",
     note="Trusted: Coq kernel+VM; harness transcription. Observed, not proved: net/http request parsing, crypto/tls ClientHello parsing, "
          "http.Transport's pool (its reuse decisions enter the model as an oracle), h2c framing, non-ASCII host names (model lower-cases "
-         "ASCII only). Routes registered through server/group/http.go get no registration id (known finding, see KNOWN_FINDINGS/design/C06.md).",
+         "ASCII only). Two clauses are REFUTED on the faithful model and replayed on the code (design/C06.md section 7): routes registered through "
+         "server/group/http.go get no registration id (a re-joined member is served by the former member's backend), and a request routed while no "
+         "route exists but dialled after one was registered pools a connection under the bare-host key (later unrouted requests reach that backend). "
+         "The _partial theorems exclude exactly these operations (hq_plain_op).",
     technique="Coq proof (invariant + refinement to a minimal spec, all histories) + differential correspondence via vm_compute + spec-only monitor on implementation traces",
     design="4/C06")
 
